@@ -228,9 +228,14 @@ func c18Body(c *mc.Ctx) {
 		t := i
 		fns = append(fns, func() { res[t] = bodies[t]() })
 	}
-	var relevant func(string) bool
-	if c.Tier != "thorough" {
-		relevant = func(loc string) bool { return c18Written[loc] }
+	// quick: preemption only at points on locations some serial run writes (plus synchronisation and
+	// I/O points), up to the bound. thorough: that with one more preemption, and separately EVERY
+	// instrumented point with at most 2 preemptions (which also validates the reduction).
+	relevant := func(loc string) bool { return c18Written[loc] }
+	maxPreempt := 0
+	if c.Tier == "thorough" && c.Pick("every-point", 2) == 1 {
+		relevant = nil
+		maxPreempt = 2
 	}
 	var s *sched.Sched
 	// the schedule goes into the failure detail, not the case: every schedule exposing the same
@@ -244,7 +249,7 @@ func c18Body(c *mc.Ctx) {
 	}
 	c.Class(sc.name)
 	var pan interface{}
-	s, pan = sched.Run(c, relevant, first, fns...)
+	s, pan = sched.RunLimited(c, relevant, first, maxPreempt, fns...)
 	c.Step(len(s.Accesses) + s.Points)
 	if s.Deadlock != "" {
 		c.Fail("deadlock", "deadlock", "no thread can continue: %s%s", s.Deadlock, sched1())
@@ -437,9 +442,9 @@ func init() {
 		ID:    "C18",
 		Title: "Independent readers, writers and marshal calls can run concurrently",
 		Rule: "nine scenarios of three threads forced to meet on shared objects or shared helpers (two binary writers and a local symbol table over one SharedSymbolTable; two readers importing one catalog table with different max_id plus a resolver calling Adjust; MarshalText/MarshalBinary/Unmarshal of one struct type, and of a struct type no thread has seen before; text reader, text writer and NewLocalSymbolTable over the system table; an Encoder/Decoder pair and two container-emitting writers; two text writers escaping control characters and formatting numbers plus a reader decoding escapes; decimals and timestamps parsed, computed and formatted in three threads; two binary readers decoding timestamps with local offsets plus a binary writer of timestamps). Package ion is re-instrumented from /repo's current sources on every run: every statement touching a package-level variable or a field of sst/bogusSST/lst/symbolTableBuilder/basicCatalog calls a hook that is a scheduling point and an access record; every Mutex/RWMutex/Once/atomic operation calls a hook that models it (a waiting thread is not enabled; release/acquire pairs are vector-clock happens-before edges); every io.Writer.Write of the scenarios is a scheduling point too. Before every execution the generated VerifReset re-runs all package-level initialisers and zeroes the other package variables, so lazily built package state is cold under every schedule. " +
-			"Under a cooperative scheduler ALL schedules with at most d preemptions are enumerated (all serial orders included). Oracles on every schedule: no deadlock (some live thread is always enabled); each thread's observable result equals its result when run alone; the conflict monitor finds no two accesses to the same (object, field) or package variable from different threads, at least one a write, not both atomic, and unordered by happens-before. With no conflicting pair all interleavings are equivalent to a serial order, so the exploration is complete for the harness. If the sources use synchronisation the scheduler has no model for (channels, go statements, WaitGroup, Cond, sync.Map) the monitor's verdicts are switched off (listed in the evidence) and the other oracles decide. The quick tier offers preemption only at points on locations some serial run writes, synchronisation operations and I/O points; the thorough tier at every point. A free-running -race pass of the same bodies complements it (hand-offs of a cooperative scheduler are happens-before edges that blind the detector). " +
+			"Under a cooperative scheduler ALL schedules with at most d preemptions are enumerated (all serial orders included). Oracles on every schedule: no deadlock (some live thread is always enabled); each thread's observable result equals its result when run alone; the conflict monitor finds no two accesses to the same (object, field) or package variable from different threads, at least one a write, not both atomic, and unordered by happens-before. With no conflicting pair all interleavings are equivalent to a serial order, so the exploration is complete for the harness. If the sources use synchronisation the scheduler has no model for (channels, go statements, WaitGroup, Cond, sync.Map) the monitor's verdicts are switched off (listed in the evidence) and the other oracles decide. The quick tier offers preemption only at points on locations some serial run writes, synchronisation operations and I/O points; the thorough tier does that with one more preemption and also offers preemption at every instrumented point with at most two. A free-running -race pass of the same bodies complements it (hand-offs of a cooperative scheduler are happens-before edges that blind the detector). " +
 			"non-trivial = a complete schedule was executed and all oracles evaluated; distinct = distinct (scenario, schedule) digests",
-		Bounds:      map[string]string{"quick": "d<=2 preemptions, preemption points on ever-written locations + I/O points", "thorough": "d<=3 preemptions at every instrumented point"},
+		Bounds:      map[string]string{"quick": "d<=2 preemptions, preemption points on ever-written locations + I/O points", "thorough": "d<=3 preemptions at points on ever-written locations + synchronisation + I/O points, and d<=2 preemptions at EVERY instrumented point"},
 		Assumptions: []string{"shared state reachable only through objects of types outside the instrumented set is seen by the free-running race pass only", "Go memory-model effects a cooperative scheduler cannot produce are left to the race pass"},
 		Body:        c18Body,
 		Pre:         c18Pre,
